@@ -49,6 +49,9 @@ fn main() {
         "C12" => frmon::c12::run(&ctx),
         "C13" => frmon::c13::run(&ctx),
         "C15" => frmon::c15::run(&ctx),
+        "C16" => frmon::c16::run(&ctx),
+        "C17" => frmon::c17::run(&ctx),
+        "C20" => frmon::c20::run(&ctx),
         _ => {
             eprintln!("unknown property {}", prop);
             std::process::exit(64);
